@@ -10,7 +10,6 @@ import (
 	"bytes"
 	"fmt"
 
-	"github.com/redis/rueidis/internal/cmds"
 )
 
 // VerifGroup is the exported form of one entry of the map returned by parseSlots / parseShards.
@@ -62,4 +61,4 @@ func VerifParseEndpoint(fallback, endpoint string, port int64) (addr string, pan
 }
 
 // VerifKeySlot is the client's own slot function (the simulated cluster computes slots independently).
-func VerifKeySlot(key string) uint16 { return cmds.Slot(key) }
+// (VerifKeySlot is in verif_export_pure1.go)
